@@ -121,10 +121,10 @@ def check_roundtrip(case):
             old.to_file(path)
             tag("name-used-before")
         with np.errstate(over="ignore"):
-            f.to_file(path, representation=rep, extend_scalar=case["extend_scalar"],
+            f.to_file(gen.path_arg(path, case["seed"]), representation=rep, extend_scalar=case["extend_scalar"],
                       save_subregions=case["save_subregions"])
         raw = open(path, "rb").read()
-        back = df.Field.from_file(path)
+        back = df.Field.from_file(gen.path_arg(path, case["seed"] + 1))
         sidecar = os.path.exists(path + ".subregions.json")
     want = expected_values(arr, rep)
     # ---- library round trip
